@@ -58,6 +58,21 @@ func (it *Interp) args(e *env, c *ast.CallExpr) ([]Value, error) {
 func (it *Interp) call(e *env, c *ast.CallExpr) ([]Value, error) {
 	info := e.pkg.TypesInfo
 	fun := ast.Unparen(c.Fun)
+	// explicit instantiation of a generic function: f[T](x) - the evaluator is untyped, the body is the same
+	switch ix := fun.(type) {
+	case *ast.IndexExpr:
+		if id, ok := ast.Unparen(ix.X).(*ast.Ident); ok {
+			if _, isInst := info.Instances[id]; isInst {
+				fun = id
+			}
+		}
+	case *ast.IndexListExpr:
+		if id, ok := ast.Unparen(ix.X).(*ast.Ident); ok {
+			if _, isInst := info.Instances[id]; isInst {
+				fun = id
+			}
+		}
+	}
 	// conversion
 	if tv, ok := info.Types[fun]; ok && tv.IsType() {
 		if len(c.Args) != 1 {
@@ -339,11 +354,17 @@ func (it *Interp) builtin(e *env, c *ast.CallExpr, name string) ([]Value, error)
 		default:
 			return nil, it.errAt(e, c, "append to %s", Show(args[0]))
 		}
+		var et types.Type
+		if st, ok := info.TypeOf(c).Underlying().(*types.Slice); ok {
+			et = st.Elem()
+		}
 		for _, a := range args[1:] {
 			if s, ok := a.(spread); ok {
-				base = append(base, []any(s)...)
+				for _, x := range s {
+					base = append(base, it.byValue(et, x))
+				}
 			} else {
-				base = append(base, a)
+				base = append(base, it.byValue(et, a))
 			}
 		}
 		return []Value{base}, nil
